@@ -23,7 +23,7 @@ CONSTANTS D,        \* set of space dimensions, e.g. {1, 2}
           Step,     \* lattice step
           QMargin,  \* the coordinates of the query point range over -QMargin..Step*(Side-1)+QMargin
           MaxPts,   \* maximum number of points
-          Orders    \* number of orderings of the point set that are generated (Db order)
+          Orders    \* number of orderings of each point set (lattice order or an arithmetic shuffle)
 
 VARIABLES dim, pts, phase, kase
 vars == <<dim, pts, phase, kase>>
@@ -81,7 +81,7 @@ Query == /\ phase = "build" /\ Len(pts) >= 1 /\ phase' = "done"
          /\ \E q \in [1..dim -> QLo..QHi], o \in 0..(Orders - 1) :
               LET n == Len(pts)
                   h == o * 7 + LexRank(pts[n]) + 3 * n + (LET S[i \in 0..dim] == IF i = 0 THEN 0 ELSE S[i - 1] * 5 + q[i] - QLo IN S[dim])
-                  P == IF o = 0 THEN pts ELSE KthPerm(pts, (h * 11 + o) % Fact(n))
+                  P == IF (h + o) % 2 = 0 THEN pts ELSE KthPerm(pts, (h * 11 + o) % Fact(n))
               IN /\ (TieFree(P, q, SqDist) \/ TieFree(P, q, ManDist))
                  /\ kase' = MkCase(P, q)
          /\ UNCHANGED <<dim, pts>>
